@@ -364,4 +364,11 @@ FinishedNeverChanges ==
 ------------------------------------------------------------------------------
 (* Emission of behaviours for replay: one JSON line per complete behaviour. *)
 Complete == pc \in {"built", "dead"}
+
+\* The closure front ends (packages fluent and fluent/qp) drive this same machine -- their callbacks regroup exactly
+\* these calls -- with one difference in what the CALLER sees: the first refused call aborts the whole build, which
+\* returns that call's error and no node.  AbortsAt is the index of that call in a history (0: none).
+AbortsAt(h) == IF \E i \in DOMAIN h : h[i].r # "ok"
+                 THEN CHOOSE i \in DOMAIN h : h[i].r # "ok" /\ \A j \in 1..(i - 1) : h[j].r = "ok"
+                 ELSE 0
 =============================================================================
